@@ -138,8 +138,14 @@ def random_opts(rng, nt):
         o["distpush"] = rng.randint(1, 3)
     if mode == "all":
         o["distall"] = 100
-    if rng.random() < 0.15:
-        o["ignore"] = ["t%d" % rng.randrange(max(1, nt))]
+    if rng.random() < 0.3:
+        # an --ignore file is read in file order: 1-4 IDs in arbitrary (mostly not ascending) order, sometimes with an
+        # ID that is no target at all
+        ids = ["t%d" % i for i in range(max(1, nt))]
+        rng.shuffle(ids)
+        o["ignore"] = ids[:rng.randint(1, min(4, len(ids)))]
+        if rng.random() < 0.2:
+            o["ignore"].insert(rng.randrange(len(o["ignore"]) + 1), "zz_absent")
     return o
 
 
